@@ -820,6 +820,13 @@ func (sc *Scope) evalCall(x *ECall) Val {
 		if v.S != SIface {
 			sc.fail("typeof needs an interface value")
 		}
+		if strings.HasPrefix(v.T, "(mk_Iface ") {
+			if f := strings.Fields(v.T[len("(mk_Iface "):]); len(f) > 0 {
+				if _, err := fmt.Sscan(f[0], new(int)); err == nil {
+					return Val{T: f[0], S: "Int"}
+				}
+			}
+		}
 		return Val{T: fmt.Sprintf("(if_tag %s)", v.T), S: "Int"}
 	case "implements":
 		need(2)
